@@ -40,7 +40,7 @@ static void prop(Tape &t, Ctx &c) {
                 psPkcs3ClearDhParams(&params);
             }
         }
-        leak.check(fmt("rc=%d", rc));
+        C09_LEAK_CHECK(leak, "rc=%d", rc);
     }
     if (rc >= 0) { c.count("parsed"); if (xbits) c.count("parsed.privlen"); }
     else if (deep) c.count("rejected.deep"); else c.count("rejected.shallow");
